@@ -19,6 +19,20 @@ func spaces(thorough bool) []chanmc.Space {
 	if thorough {
 		types = chanmc.AllTypes
 	}
+	// What is on disk is also written by components that hold their own, older handle of
+	// the channel (chain watcher, arbitrator, funding manager): in every state of a small
+	// space, each auxiliary channeldb writer called through a handle loaded at start-up
+	// must leave everything but its own field as it was (terminal `side>X` probes).
+	{
+		sideTypes, sideCuts := []string{"legacy"}, 0
+		if thorough {
+			sideTypes, sideCuts = chanmc.AllTypes, 1
+		}
+		for ti, typ := range sideTypes {
+			out = append(out, chanmc.Space{Dev: -1, P: chanmc.Params{Type: typ, OpenerB: ti%2 == 1, MaxCuts: sideCuts, CutOnlyInSync: true, SideWriters: true, Fees: []int64{6600},
+				Script: []chanmc.Intent{{By: 1, Amt: sat(45000, 3), Fate: "settle"}}}})
+		}
+	}
 	for ti, typ := range types {
 		th := chanmc.Thresholds(typ, 6000, 200, 1300)
 		openerB := ti%2 == 0
